@@ -385,7 +385,7 @@ def fixture_notebooks():
 # ------------------------------------------------------------------ targeted three-way scenarios
 SCENARIOS = ['concurrent-insert', 'concurrent-insert', 'delete-vs-edit', 'same-line', 'different-lines', 'both-outputs', 'both-metadata',
              'insert-next-to-edit', 'delete-vs-transient', 'same-change', 'both-nbmeta', 'both-attachments', 'minor', 'replace-vs-transient', 'remove-output-vs-transient', 'dup-around-shared',
-             'replace-vs-insert', 'two-conflict-regions', 'output-mixed-keys', 'minor-down']
+             'replace-vs-insert', 'two-conflict-regions', 'output-mixed-keys', 'minor-down', 'remove-key-vs-transient']
 
 
 def similar_cell(rng, c, used):
@@ -606,7 +606,7 @@ def triple_scenario(rng, minor=None, first=None):
             break
         elif sc == 'output-mixed-keys':
             # both sides patch the same output; one key is changed on both sides (differently), another by one side only
-            cands = [i for i in common if l['cells'][i]['cell_type'] == 'code']
+            cands = [i for i in common if l['cells'][i]['cell_type'] == 'code' and l['cells'][i]['outputs'] == r['cells'][i]['outputs'] == base['cells'][i]['outputs']]
             if cands:
                 i = rng.choice(cands)
                 ec = rng.choice([1, 2, 3])
@@ -625,6 +625,17 @@ def triple_scenario(rng, minor=None, first=None):
                 db['text/plain'] = db['text/plain'].replace(rows[q], rows[q] + '7')
                 if rng.random() < 0.4:
                     a['cells'][i]['outputs'][pos]['metadata'] = {'isolated': True}
+        elif sc == 'remove-key-vs-transient':
+            # one side removes a transient metadata key, the other gives it another value
+            cands = [i for i in common if l['cells'][i]['cell_type'] == 'code']
+            if cands:
+                i = rng.choice(cands)
+                key = rng.choice(['collapsed', 'scrolled', 'autoscroll'])
+                for nb in (base, l, r):
+                    nb['cells'][i]['metadata'][key] = False
+                a, b_ = (l, r) if rng.random() < 0.5 else (r, l)
+                del a['cells'][i]['metadata'][key]
+                b_['cells'][i]['metadata'][key] = True
         elif sc == 'minor-down':
             # an older client re-saves the notebook: lower minor version on one side (ids stripped), possibly another minor on the other
             if base['nbformat_minor'] >= 1:
